@@ -247,15 +247,15 @@ Definition ETIMEDOUT := 110. Definition ECONNABORTED := 103. Definition EMSGSIZE
 Definition EINVAL := 22. Definition ENOTCONN := 107. Definition EPIPE := 32. Definition EWOULDBLOCK := 11.
 
 (* inner loop of transmit on WR_TOO_LARGE: step down the MTU table; returns None = EMSGSIZE *)
-Fixpoint shrink_mss (fuel : nat) (s : sock) (nTransmit : Z) : option (sock * Z) :=
+Fixpoint shrink_mss (fuel : nat) (s : sock) (nTransmit : Z) : sock * option Z :=
   match fuel with
-  | O => None
+  | O => (s, None)
   | S f =>
-    if nthz PACKET_MAXIMUMS (msslevel s + 1) =? 0 then None else
+    if nthz PACKET_MAXIMUMS (msslevel s + 1) =? 0 then (s, None) else
     let lvl := msslevel s + 1 in
     let m := w32 (nthz PACKET_MAXIMUMS lvl - PACKET_OVERHEAD) in
     let s' := s <| msslevel := lvl |> <| mss := m |> <| cwnd := w32 (2 * m) |> in
-    if m <? nTransmit then Some (s', m) else shrink_mss f s' nTransmit
+    if m <? nTransmit then (s', Some m) else shrink_mss f s' nTransmit
   end.
 
 (* outer while (TRUE) of transmit: returns status (0 = sent) and the final nTransmit *)
@@ -275,8 +275,8 @@ Fixpoint transmit_loop (fuel : nat) (i : nat) (nTransmit now : Z) : M (Z * Z) :=
       | WR_TOO_LARGE =>
         s <- get ;;
         match shrink_mss 12 s nTransmit with
-        | None => ret (EMSGSIZE, nTransmit)
-        | Some (s', nt) => put s' ;;; transmit_loop f i nt now
+        | (s', None) => put s' ;;; ret (EMSGSIZE, nTransmit)
+        | (s', Some nt) => put s' ;;; transmit_loop f i nt now
         end
       end
     end
@@ -749,7 +749,8 @@ Definition recv (n : Z) (now : Z) : M (Z * bytes) :=
     put (s <| bReadEnable := true |> <| error := EWOULDBLOCK |>) ;;; ret (-1, [])
   else
     let avail := rb_remaining s in
-    (if w32 (avail - rcv_wnd s) >=? Z.min (rbuf_len s / 2) (mss s) then
+    (* gsize available_space - guint32 rcv_wnd: 64-bit unsigned arithmetic *)
+    (if (avail - rcv_wnd s) mod 18446744073709551616 >=? Z.min (rbuf_len s / 2) (mss s) then
        let wasClosed := rcv_wnd s =? 0 in
        put (s <| rcv_wnd := avail |>) ;;; when wasClosed (attempt_send sfImmediateAck now)
      else ret tt) ;;; ret (rd, d).
